@@ -3264,3 +3264,7 @@ mod tests {
         [from_builder_res, from_try_new_res]
     }
 }
+
+#[cfg(kani)]
+#[path = "/verif/kani/arrow-data/data.rs"]
+mod verif_kani;
